@@ -445,6 +445,48 @@ def shard_movers(prop: str, tier: str, seed: int, scenario: str, P: int, only: d
     return c.export()
 
 
+def shard_limits(prop: str, tier: str, seed: int) -> dict[str, Any]:
+    """Queues configured with a lower attempt limit than the default: a message that keeps failing must reach the DLQ
+    at THAT limit however it entered the queue (plain push, transactional push, DLQ replay) - never sit there undeliverable."""
+    from stabilize import SqliteQueue
+    from stabilize.queue.messages import StartWorkflow
+
+    c = Campaign(prop, tier, seed, LEVEL)
+    for limit in (1, 2, 3, 5, 10, 12):
+        for how in ("push", "push_txn", "replay"):
+            w = World()
+            q = SqliteQueue("sqlite:///:memory:", table_name="queue_messages", max_attempts=limit)
+            case = {"kind": "limits", "limit": limit, "entered_by": how}
+            msg = StartWorkflow(execution_id="L1")
+            if how == "push_txn":
+                with w.store.transaction(q) as txn:
+                    txn.push_message(msg)
+            else:
+                q.push(msg)
+            if how == "replay":
+                rid = w.scalar("SELECT id FROM queue_messages")
+                q.move_to_dlq(rid, "setup")
+                q.replay_dlq(w.scalar("SELECT id FROM queue_messages_dlq"))
+            polls = 0
+            for _ in range(limit + 3):
+                w._harness_sql("UPDATE queue_messages SET deliver_at = '2000-01-01T00:00:00+00:00', locked_until = NULL")
+                m = q.poll_one()
+                if m is None:
+                    break
+                polls += 1
+                q.reschedule(m, timedelta(seconds=0))
+            moved = q.check_and_move_expired()
+            nq = w.scalar("SELECT COUNT(*) FROM queue_messages")
+            nd = w.scalar("SELECT COUNT(*) FROM queue_messages_dlq")
+            if polls != limit:
+                c.violation(f"limit-delivery-count|{how}", case, f"attempt limit {limit}: the failing message was delivered {polls}x")
+            if (nq, nd) != (0, 1):
+                c.violation(f"limit-not-dead-lettered|{how}", case,
+                            f"attempt limit {limit}, message entered by {how}: after {polls} failed deliveries poll_one returns nothing, the sweep moved {moved}; queue {nq}, DLQ {nd}")
+            c.case(("c08l", limit, how), limit != 10, ["attempt-limit", f"limit:{limit}", f"entered-by:{how}"])
+    return c.export()
+
+
 def _dispatch(fn, a):  # noqa: ANN001
     return fn(*a)
 
@@ -456,6 +498,7 @@ def run(c: Campaign, jobs: int) -> None:
     shards = max(1, jobs)
     args = [(shard, (c.prop, c.tier, c.seed * 1000 + k, max(1, n // shards), steps)) for k in range(shards)]
     args.append((shard_fixed, (c.prop, c.tier, c.seed)))
+    args.append((shard_limits, (c.prop, c.tier, c.seed)))
     for nmsg, nw, sw, P in ((1, 2, False, 3), (2, 2, False, 3), (1, 3, False, 2), (2, 2, True, 2), (2, 3, True, 1)):
         args.append((shard_pollers, (c.prop, c.tier, c.seed, nmsg, nw, sw, P if quick else P + 1)))
     for scenario, P in (("two-sweeps", 3), ("sweep+move", 3), ("two-replays", 3), ("replay+sweep", 3), ("three-sweeps", 2)):
@@ -468,11 +511,11 @@ def run(c: Campaign, jobs: int) -> None:
               "a move to the DLQ, or a poll while the other worker holds a message. Distinct = hash of the operation list.")
     c.assumptions += [
         "time is owned by the harness: delays and lock expiry happen only when the harness rewrites deliver_at / locked_until; TZ=UTC",
-        "default limits (queue and message max_attempts 10); ties on deliver_at are not ordered by the model",
+        "generated histories use the default limits (queue and message max_attempts 10); other queue limits (1, 2, 3, 5, 12) are covered by the attempt-limit grid; ties on deliver_at are not ordered by the model",
         "sequential histories use two SqliteQueue instances on one connection; concurrent pollers (2-3 workers, optional DLQ sweep / heartbeat) run under the interleaving engine with a bounded number of pre-emptions",
         "a stale holder's ack deletes the row another worker now holds: at-least-once, recorded as acknowledged (not loss)",
     ]
-    for cls in ("lapse_repoll", "dlq_moves", "contended_polls", "replays", "fixed-history", "concurrent-movers"):
+    for cls in ("lapse_repoll", "dlq_moves", "contended_polls", "replays", "fixed-history", "concurrent-movers", "attempt-limit"):
         if c.classes.get(cls, 0) == 0:
             c.harness_error(f"generator starvation: class {cls} never produced")
 
